@@ -26,7 +26,7 @@ RULE = ('references = {relative, $col, $row, both} on each corner x {bare, unquo
         '99999,random 1-5 digits} through entry-point slices) x titles (ASCII, underscore, blank, Cyrillic, digits, dot, braces, '
         'prefixes of each other) x position of the formula sheet; each reference observed through >=3 forms, under workbook '
         'values and under overrides.  Non-trivial: the reference is not the single cell A1 of the first sheet and its '
-        'expected value differs from what the same text would give on another sheet / shifted by one row or column '
+        'a data-only sheet with a ragged bottom edge referenced by whole-column areas of 1-4 columns; expected value differs from what the same text would give on another sheet / shifted by one row or column '
         '(guaranteed by unique cell values); distinct by (book, formula text, valuation)')
 ASSUMPTIONS = ['unique numbers per cell make a value identify its coordinate', 'reversed corners (C3:A1) are not generated',
                'titles containing \' or ! have no spelling in the grammar and are not referenced',
@@ -228,6 +228,30 @@ def run_book(ctx, bi, far):
                 place(own, None, kind='INDEX', ref=ref, sp=sp)      # (i,j) chosen once the extent is known
             else:
                 place(own, f'={form}({sp})', kind=form, ref=ref)
+    # a data-only sheet with a ragged bottom edge (column A is the longest, each column further right ends earlier, nothing is
+    # stored right of them): whole-column areas over it must keep the rows in which only the left columns hold values
+    if not far:
+        rsi = ns
+        ragged = {}
+        heights = sorted([rng.randrange(3, 14) for _ in range(4)], reverse=True)
+        for c, h in enumerate(heights, start=1):
+            for rr_ in range(1, h + 1):
+                if rng.random() > 0.1:
+                    ragged[(rr_, c)] = code(rsi, rr_, c)
+        ragged[(heights[0], 1)] = code(rsi, heights[0], 1)      # the longest column really ends there
+        data.append(ragged)
+        sheets.append(dict(ragged))
+        titles.append('Ragged')
+        for _ in range(8):
+            own = rng.randrange(ns)
+            c1 = rng.randrange(1, 5)
+            c2 = rng.randrange(c1, 5)
+            ref = Ref(rsi, None, c1, None, c2, whole=True)
+            sp = spell(rng, ref, titles, own, r)
+            place(own, '=' + sp, kind='bare', ref=ref)
+            place(own, f'=SUM({sp})', kind='SUM', ref=ref)
+            place(own, f'=COUNT({sp})', kind='COUNT', ref=ref)
+            place(own, None, kind='INDEX', ref=ref, sp=sp)
     # function positions (xlref-judged); near books only, areas inside the gap-free zone rows 1..4 x cols A..D
     if not far:
         for _ in range(14):
@@ -277,7 +301,8 @@ def run_book(ctx, bi, far):
             place(own, f, kind='fn')
             r.seen('function_positions', f[1:f.index('(')] if '(' in f and f[1].isalpha() else 'operator')
     # extents (used range incl. formula cells) and INDEX points
-    max_row = [max([k[0] for k in sheets[si]], default=0) for si in range(ns)]
+    nall = len(sheets)
+    max_row = [max([k[0] for k in sheets[si]], default=0) for si in range(nall)]
     for fm in forms:
         if fm['kind'] == 'INDEX':
             cells = area_cells(fm['ref'], max_row[fm['ref'].si])
@@ -286,7 +311,7 @@ def run_book(ctx, bi, far):
             fm['ij'] = (i, j)
             fm['formula'] = f'=INDEX({fm["sp"]},{i},{j})'
     spec_sheets = []
-    for si in range(ns):
+    for si in range(nall):
         cells = {}
         for (rr, cc), v in sheets[si].items():
             cells[addr(rr, cc)] = v
@@ -324,12 +349,12 @@ def run_book(ctx, bi, far):
     # ---- valuations: workbook values, then overrides on data cells and on never-written cells ----
     valuations = [[]]
     ov = []
-    for si in range(ns):
+    for si in range(nall):
         keys = sorted(data[si])
         for (rr, cc) in rng.sample(keys, min(4, len(keys))):
             ov.append((si, rr, cc, code(si, rr, cc) + 5 * 10 ** 9 + 0.5))
         if not far:
-            gaps = [(rr, cc) for rr in range(1, 11) for cc in range(1, 8) if (rr, cc) not in data[si]]
+            gaps = [(rr, cc) for rr in range(1, 11) for cc in range(1, 8) if (rr, cc) not in data[si]] if si < ns else []
             for (rr, cc) in rng.sample(gaps, min(2, len(gaps))):
                 ov.append((si, rr, cc, code(si, rr, cc) + 7 * 10 ** 9))
     valuations.append(ov)
